@@ -297,6 +297,9 @@ long long batteryNames(NifFile& nif, ContentIds& ids) {
 		for (auto& b : bones) l += " b:" + b;
 		if (auto si = hdr.GetBlock<NiSkinInstance>(shape->SkinInstanceRef())) l += " root:" + nameOf(si->targetRef.index);
 		else if (auto bi = hdr.GetBlock<BSSkinInstance>(shape->SkinInstanceRef())) l += " root:" + nameOf(bi->targetRef.index);
+		// how many bone entries the skin has, placeholders included (bones that are given by name only keep an empty entry each)
+		if (auto si = hdr.GetBlock<NiSkinInstance>(shape->SkinInstanceRef())) l += " entries:" + std::to_string(si->boneRefs.GetSize());
+		else if (auto bi = hdr.GetBlock<BSSkinInstance>(shape->SkinInstanceRef())) l += " entries:" + std::to_string(bi->boneRefs.GetSize());
 		if (auto sh = nif.GetShader(shape)) l += " shader:" + std::string(sh->GetBlockName()) + ":" + sh->name.get();
 		for (uint32_t t = 0; t < 10; t++) {
 			std::string tex;
